@@ -431,7 +431,7 @@ def snippet(case) -> str:
 
 
 # ------------------------------------------------------------------ generator
-def gen_world(rng: Rng) -> List[dict]:
+def gen_world(rng: Rng, twins: bool = False) -> List[dict]:
     n = rng.choice([0, 1, 2, 2, 3, 3, 3, 4, 4, 5])
     objs = []
     for i in range(1, n + 1):
@@ -441,28 +441,34 @@ def gen_world(rng: Rng) -> List[dict]:
         o["kids"] = [rng.randint(1, n) for _ in range(rng.randint(0, 2))]
         o["child"] = rng.randint(1, n)
     m = rng.randint(0, 3) if rng.chance(0.5) else 0
+    if twins:
+        m = rng.randint(2, 4)
     for j in range(1, m + 1):
-        k = rng.randint(0, 1)
+        k = rng.randint(0, 1) if not twins or j > 2 else 0     # with twins: at least two distinct objects that compare equal
         objs.append({"id": 100 + j, "cls": "T", "key": 1000 + k, "k": k, "a": rng.randint(0, 2)})
     return objs
 
 
 def gen_case(rng: Rng, profile: str = "c01") -> dict:
     """profile c01: everything; c02: biased to the conjunctive / else-if fragment with duplicate-free domains"""
-    objs = gen_world(rng)
+    twins = profile == "quant" and rng.chance(0.35)
+    objs = gen_world(rng, twins)
     pids = [o["id"] for o in objs if o["cls"] == "P"]
     tids = [o["id"] for o in objs if o["cls"] == "T"]
     nvars = rng.choice([1, 1, 2, 2, 2, 3])
     case: Dict[str, Any] = {"objs": objs, "vars": {}, "doms": {}}
-    for name in VARS[:nvars]:
+    for vi, name in enumerate(VARS[:nvars]):
         r = rng.random()
+        if twins and vi == 0:
+            r = 0.2     # the first (free) variable ranges over the value-equal twins
         if r < 0.15:
             dom = [rng.randint(0, 2) for _ in range(rng.randint(0 if rng.chance(0.1) else 1, 3))]
             if profile == "c02" or rng.chance(0.8):
                 dom = list(dict.fromkeys(dom))
             case["vars"][name], case["doms"][name] = "int", dom
         elif r < 0.3 and tids:
-            case["vars"][name], case["doms"][name] = "T", rng.sample(tids, rng.randint(0 if rng.chance(0.1) else 1, len(tids)))
+            case["vars"][name], case["doms"][name] = "T", (rng.sample(tids, len(tids)) if twins and vi == 0 else
+                                                           rng.sample(tids, rng.randint(0 if rng.chance(0.1) else 1, len(tids))))
         else:
             dom = rng.sample(pids, rng.randint(0 if rng.chance(0.1) else min(1, len(pids)), len(pids)))
             if profile != "c02" and dom and rng.chance(0.05):
